@@ -70,8 +70,9 @@ func (x *Exec) indexAddr(st *State, fr *Frame, in *ssa.IndexAddr) {
 		x.assumeOrCheck(st, "bounds", "slice index", and(mk(SBool, "<=", intLit(0), idx), mk(SBool, "<", idx, v.Len)))
 		fr.regs[in] = PtrV{Base: v.Arr, Root: elem, Typ: in.Type(), Elem: true, Idx: addT(v.Off, idx)}
 	case PtrV:
-		if _, ft := subLeaves(v.Root, v.Path); len(v.Path) > 0 || v.Elem {
-			// a fixed array held in a field (or slice element) of an object: element pointer into that one leaf
+		if len(v.Path) > 0 {
+			// a fixed array held in a field of an object: element pointer into that one leaf
+			_, ft := subLeaves(v.Root, v.Path)
 			if fat, isArr := ft.Underlying().(*types.Array); isArr && v.AIdx == nil {
 				x.assumeOrCheck(st, "bounds", "array index", and(mk(SBool, "<=", intLit(0), idx), mk(SBool, "<", idx, intLit(fat.Len()))))
 				q := v
